@@ -142,7 +142,7 @@ var vkCands = []vkCand{
 	5:  {Rel: []string{"b"}, Types: []uint16{dns.TypeNS, dns.TypeDS}, Role: "deleg", Desc: "b NS DS (secure delegation)"},
 	6:  {Rel: []string{"a"}, Types: []uint16{dns.TypeDNAME}, Role: "dname", Desc: "a DNAME"},
 	7:  {Rel: []string{"*", "a"}, Types: []uint16{dns.TypeTXT}, Desc: "*.a TXT"},
-	8:  {Rel: []string{"b", "a"}, Types: []uint16{dns.TypeA, dns.TypeTXT}, Desc: "b.a A TXT"},
+	8:  {Rel: []string{"b", "a"}, Types: []uint16{dns.TypeA, dns.TypeTXT, dns.TypeCAA}, Desc: "b.a A TXT CAA (a type code above 63)"},
 	9:  {Rel: []string{"\x00"}, Types: []uint16{dns.TypeA}, Desc: "\\000 A"},
 	10: {Rel: []string{"a.b"}, Types: []uint16{dns.TypeCNAME}, Desc: "a\\.b CNAME"},
 	11: {Rel: []string{"a", "a", "b"}, Types: []uint16{dns.TypeA}, Desc: "a.a.b A"},
